@@ -237,7 +237,7 @@ def run(ctx):  # noqa: C901
             errp = float(sv.phase_dist(D, U))
             kind = "phase" if (exact and errp <= tol) else "matrix"
             famtag = fam.split("-1e")[0]
-            mech = f"{kind}:{entry}:{famtag}"
+            mech = f"{kind}:{entry}"
             if fam.startswith("walk-") and err < 1e-1 and U.shape[0] == 4:
                 # mechanism: numerical CNOT-count classification snaps a unitary that is close to (not in) a lower class
                 mech = f"boundary-loss:two_qubit:cnots={(info_extra or {}).get('n_cnots', sum(1 for o in ops_ if len(o.wires) == 2))}"
